@@ -7,7 +7,7 @@ import z3
 from .engine import EngineError, ok, rs
 from .state import Event, LoopSummary
 from .values import (
-    ExcV, ExtClassRef, HObj, Opaque, Opt, Ref, ClassRef, fresh_name, is_sym, to_z3_bool,
+    BytesV, ExcV, ExtClassRef, HObj, Opaque, Opt, Ref, ClassRef, U, fresh_name, is_sym, to_z3_bool,
 )
 
 NORMAL = ('normal', None)
@@ -197,6 +197,20 @@ class StmtMixin:
             items = list(v)
         elif isinstance(v, Ref) and st.obj(v).kind in ('list', 'tuple'):
             items = list(st.obj(v).items)
+        elif isinstance(v, Opaque) and v.kind in getattr(self.registry, 'unpack_kinds', {}):
+            # an opaque record whose components are functions of it (e.g. a queue item that is an (offset, data) pair)
+            from .contracts import Int as _Int, BytesT as _BytesT
+            items = []
+            for i, t in enumerate(self.registry.unpack_kinds[v.kind]):
+                if t is _Int:
+                    items.append(z3.Function(f'{v.kind}_item{i}', U, z3.IntSort())(v.term))
+                elif isinstance(t, _BytesT):
+                    lo = z3.Function(f'{v.kind}_item{i}_lo', U, z3.IntSort())(v.term)
+                    hi = z3.Function(f'{v.kind}_item{i}_hi', U, z3.IntSort())(v.term)
+                    st.assume(hi >= lo)
+                    items.append(BytesV(t.base, lo, hi))
+                else:
+                    raise EngineError('unpack_kinds component type')
         else:
             raise EngineError(f'unpack of {type(v).__name__}')
         if len(items) != n:
